@@ -103,6 +103,17 @@ Definition set_encoding (e : str) (sh : list rule) : list rule :=   (* _setEncod
   | _ => Charset (lower e) :: sh
   end.
 
+(* one assignment `sheet.encoding = a` of a history: None (or '') removes the rule; a name the charset rule's setter
+   refuses (syntax error, unknown to Python, not writable by the serializer: `usable` false) changes nothing
+   (csscharsetrule.py:140-166: `_encoding` is assigned only in the try/else)                                      *)
+Definition assign (usable : str -> bool) (sh : list rule) (a : option str) : list rule :=
+  match a with
+  | None => match sh with Charset _ :: r => r | _ => sh end
+  | Some e => if usable e then set_encoding e sh else sh
+  end.
+Definition run_history (usable : str -> bool) (sh : list rule) (ops : list (option str)) : list rule :=
+  fold_left (assign usable) ops sh.
+
 (* detectencoding_str restricted to its last candidate: bytes that start with the literal
    at-charset-space-doublequote prefix and contain a closing quote name their encoding (_codec3.py:152-158); None = no such rule      *)
 Fixpoint until_quote (t : list N) : option (list N) :=
